@@ -1,11 +1,94 @@
 //! vcheck <Cxx> <quick|thorough> | vcheck <Cxx> --replay <file>
+//!
+//! Each property lives in its own module behind a cargo feature of the same
+//! name so that a module under construction cannot break the others.
 use vkit::runner::{replay_cmd, run_prop, Prop, Tier};
 
+#[cfg(feature = "c01")]
+mod c01;
+#[cfg(feature = "c02")]
+mod c02;
+#[cfg(feature = "c03")]
+mod c03;
+#[cfg(feature = "c04")]
+mod c04;
+#[cfg(feature = "c05")]
+mod c05;
+#[cfg(feature = "c06")]
+mod c06;
+#[cfg(feature = "c07")]
+mod c07;
+#[cfg(feature = "c08")]
+mod c08;
+#[cfg(feature = "c09")]
+mod c09;
+#[cfg(feature = "c10")]
+mod c10;
+#[cfg(feature = "c11")]
+mod c11;
+#[cfg(feature = "c12")]
+mod c12;
+#[cfg(feature = "c13")]
+mod c13;
+#[cfg(feature = "c14")]
 mod c14;
+#[cfg(feature = "c15")]
 mod c15;
+#[cfg(feature = "c16")]
+mod c16;
+#[cfg(feature = "c17")]
+mod c17;
+#[cfg(feature = "c18")]
+mod c18;
+#[cfg(feature = "c19")]
+mod c19;
+#[cfg(feature = "c20")]
+mod c20;
 
 fn props() -> Vec<Prop> {
-    vec![c14::prop(), c15::prop()]
+    #[allow(unused_mut)]
+    let mut v: Vec<Prop> = vec![];
+    #[cfg(feature = "c01")]
+    v.push(c01::prop());
+    #[cfg(feature = "c02")]
+    v.push(c02::prop());
+    #[cfg(feature = "c03")]
+    v.push(c03::prop());
+    #[cfg(feature = "c04")]
+    v.push(c04::prop());
+    #[cfg(feature = "c05")]
+    v.push(c05::prop());
+    #[cfg(feature = "c06")]
+    v.push(c06::prop());
+    #[cfg(feature = "c07")]
+    v.push(c07::prop());
+    #[cfg(feature = "c08")]
+    v.push(c08::prop());
+    #[cfg(feature = "c09")]
+    v.push(c09::prop());
+    #[cfg(feature = "c10")]
+    v.push(c10::prop());
+    #[cfg(feature = "c11")]
+    v.push(c11::prop());
+    #[cfg(feature = "c12")]
+    v.push(c12::prop());
+    #[cfg(feature = "c13")]
+    v.push(c13::prop());
+    #[cfg(feature = "c14")]
+    v.push(c14::prop());
+    #[cfg(feature = "c15")]
+    v.push(c15::prop());
+    #[cfg(feature = "c16")]
+    v.push(c16::prop());
+    #[cfg(feature = "c17")]
+    v.push(c17::prop());
+    #[cfg(feature = "c18")]
+    v.push(c18::prop());
+    #[cfg(feature = "c19")]
+    v.push(c19::prop());
+    #[cfg(feature = "c20")]
+    v.push(c20::prop());
+    v
 }
 
 fn main() {
@@ -16,7 +99,7 @@ fn main() {
     }
     let id = args[1].to_uppercase();
     let Some(prop) = props().into_iter().find(|p| p.id == id) else {
-        eprintln!("unknown property {}", id);
+        eprintln!("unknown property {} (not built into this binary)", id);
         std::process::exit(2);
     };
     let seed: u64 = std::env::var("VERIF_SEED").ok().and_then(|s| s.parse().ok()).unwrap_or(1);
